@@ -379,7 +379,11 @@ impl Ctx {
         }
         asserts.push(s.lit(self, lit));
         self.prune_queries += 1;
+        let t0 = std::time::Instant::now();
         let a = s.check(self, &asserts);
+        if t0.elapsed().as_millis() > 1500 && std::env::var("VERIF_DEBUG").is_ok() {
+            eprintln!("slow prune query {:.1}s -> {:?} :: {}", t0.elapsed().as_secs_f64(), a, asserts.last().map(|s| s.chars().take(160).collect::<String>()).unwrap_or_default());
+        }
         self.session = Some(s);
         !matches!(a, Answer::Unsat)
     }
@@ -531,6 +535,22 @@ impl Ctx {
             Op::Sub => x.sub(y),
             Op::Mul => x.mul(y),
             Op::Div => x.div(y),
+            Op::RemEuclid | Op::DivEuclid if self.mode == Mode::R && !self.concolic && y.0 != 0 => {
+                // a = k*p + r, k integer, 0 <= r < |p|
+                let ap = Rat(y.0.abs(), y.1);
+                let k = x.div(ap).map(|d| d.floor());
+                match k {
+                    Some(k) => {
+                        let r = ap.mul(Rat::int(k)).and_then(|kp| x.sub(kp));
+                        if op == Op::RemEuclid {
+                            r
+                        } else {
+                            Some(Rat::int(if y.0 < 0 { -k } else { k }))
+                        }
+                    }
+                    None => None,
+                }
+            }
             _ => return None,
         };
         if r.is_none() && !matches!(op, Op::Div) {
@@ -848,7 +868,13 @@ pub fn explore<R>(cfg: &ExploreCfg, mut f: impl FnMut() -> R) -> (Vec<Path<R>>, 
         c.decisions = 0;
         c.prune_queries = 0;
         if cfg.prune && c.session.as_ref().map(|s| s.mode != cfg.mode).unwrap_or(true) {
-            c.session = Some(if cfg.mode == Mode::O { Session::new_abs(cfg.timeout_ms) } else { Session::new(cfg.mode, cfg.timeout_ms) });
+            c.session = Some(if cfg.mode == Mode::O {
+                Session::new_abs(cfg.timeout_ms)
+            } else {
+                let mut s = Session::new(cfg.mode, cfg.timeout_ms);
+                s.rem_free = true;
+                s
+            });
         }
         if let Some(s) = c.session.as_mut() {
             s.timeout_ms = cfg.timeout_ms;
